@@ -447,8 +447,19 @@ func packDataOpt(options []EDNS0, msg []byte, off int) (int, error) {
 }
 
 func unpackStringOctet(msg []byte, off int) (string, int, error) {
-	s := string(msg[off:])
-	return s, len(msg), nil
+	// packOctetString reads a backslash as the start of an escape sequence, so a backslash
+	// on the wire must be held escaped for the value to pack to the same octets again.
+	if strings.IndexByte(string(msg[off:]), '\\') < 0 {
+		return string(msg[off:]), len(msg), nil
+	}
+	var sb strings.Builder
+	for _, b := range msg[off:] {
+		if b == '\\' {
+			sb.WriteByte('\\')
+		}
+		sb.WriteByte(b)
+	}
+	return sb.String(), len(msg), nil
 }
 
 func packStringOctet(s string, msg []byte, off int) (int, error) {
